@@ -26,17 +26,14 @@ RULE = (
     "vector, or float entries.  Distinct = SHA-1 of canonical case JSON."
 )
 ASSUMPTIONS = [
-    "float vector entries are read as the exact rational Fraction(float); with arbitrary "
-    "(non-dyadic) floats scores are compared to relative 1e-9, otherwise exactly",
-    "election-level checks use int, p/q or dyadic-float vectors so that ties are well defined",
+    "float vector entries are read as the exact rationals they denote (Fraction(float)) and scores are "
+    "compared exactly; only the to_float=True variant is compared to relative 1e-9",
 ]
 
 
 @st.composite
 def vector(draw, n, for_election):
     kind = draw(st.sampled_from(["int", "int", "rat", "dyadic", "float"]))
-    if for_election and kind == "float":
-        kind = "dyadic"
     ln = draw(st.sampled_from([n, n, max(1, n - 1), max(1, n - 2), n + 1, n + 3, 1]))
     if kind == "int":
         vals = draw(st.lists(st.integers(0, 7), min_size=ln, max_size=ln))
@@ -148,7 +145,9 @@ def check(case):
     prof = C.mk_profile(ballots, cands)
     vec = case["vector"]
     v_py = [C.num(x) for x in vec["v"]]
-    exact = vec["kind"] != "float"
+    # float entries are read as the exact rationals they denote (Fraction(float)); the statement
+    # promises exact rational arithmetic for them as well
+    exact = True
     out.label(f"vec={vec['kind']}", f"rule={case['rule']}",
               "len<" if len(v_py) < n else ("len>" if len(v_py) > n else "len="))
 
